@@ -44,11 +44,15 @@ def run_case(case, ctx=None):
     from tel2puml.loop_detection.loop_types import LoopEvent
 
     m = pvcase.materialise(case)
-    if not m.jobs:
+    if m.too_large or not m.jobs:
+        if ctx:
+            ctx.count("skipped_too_large")
         return
-    if m.too_large and ctx:
-        # any finite job set is in the domain: use the drawn sample
-        ctx.count("execution_set_above_cap_sampled")
+    fam = pvcase.known_family(case, m, "C07")
+    if fam and not case.get("force"):
+        if ctx:
+            ctx.exclude(fam)
+        return
     learn.SCHED.reseed(case["sched"])
     rng = random.Random(case["sched"] ^ 0x5EED)
     pv = [learn.job_to_pv(j, "job", rng=rng) for j in m.jobs]
@@ -150,7 +154,7 @@ def run_case(case, ctx=None):
 
 def replay(case):
     try:
-        run_case(case)
+        run_case(dict(case, force=True))
     except Violation as v:
         return str(v)
     return None
